@@ -700,3 +700,41 @@ def macro_level_used(chk, P, key):
             raise mir.AnchorMissing("expand_* entry points with a `level` option (found %d)" % n)
         return True, "", ev
     chk.ob(key, "every macro entry point that is given a level hands it on (lvl property / span injection) on every token-producing path", f)
+
+
+# ---- C11: a failed delete does not end retention ------------------------------------------------------------------------------------------------
+
+def retention_not_ended_by_failure(chk, P, key):
+    """`after every batch the set holds at most the configured maximum number of files`: the retention loop is left only because the listing is short
+    enough (its length test) or empty (`pop()` gave None) - never because deleting one file failed.  A failed delete is counted and skipped; if it ended
+    the loop, one undeletable oldest file would stop every later deletion and the set would grow by a file per roll."""
+    def f():
+        b = P.body("emit_file::ActiveFileSet::<'a>::apply_retention")
+        heads = sorted({h for s_, h in b.back_edges()})
+        if not heads:
+            raise mir.AnchorMissing("the loop of apply_retention")
+        rm = [c for c in b.calls(normal_only=True) if c.callee.get("name") == "remove_file"]
+        if len(rm) != 1:
+            raise mir.AnchorMissing("the remove_file call of apply_retention")
+        body = b.loop_body(heads[0])
+        ev = []
+        for u in sorted(body):
+            t = b.blocks[u]["term"]
+            for v in b.succ(u):
+                if v in body or b.blocks[v].get("cleanup"):
+                    continue
+                # an exit edge u -> v: every way out of the loop must not lie behind a decision on the outcome of remove_file
+                doms = [g for g, vals, tgt in b.guards_of(u) if g in body] + ([u] if t["k"] == "switch" else [])
+                for g in doms:
+                    so = b.switch_origin(g)
+                    x = so[1] if so[0] == "discr" else so
+                    while x[0] in ("field", "downcast", "copy", "ref", "deref"):
+                        x = x[1]
+                    if x[0] == "call" and x[1].bb == rm[0].bb:
+                        return False, ("apply_retention leaves its loop on an outcome of remove_file (branch at %s:%s): one file that cannot be deleted ends retention for "
+                                       "good, so the set grows past its maximum" % (b.file, b.blocks[g]["term"].get("line"))), [], rm[0].loc
+                ev.append("exit bb%d->bb%d" % (u, v))
+        if not ev:
+            raise mir.AnchorMissing("an exit of the retention loop")
+        return True, "", ev
+    chk.ob(key, "the retention loop is left only when the listing is short enough or empty, never because a delete failed", f)
